@@ -20,6 +20,8 @@ package main
 //   parse ev <codes>
 //       EvalString of a text made of self-evaluating literals on a fresh interpreter:
 //       canonical value, `nil` for no value, `err`.
+//   parse h …, parse ei …
+//       histories of failed/abandoned parses x reset routes: see ch_parsehist.go
 // Strings cross the line as dot-separated decimal code points, `-` = empty.
 
 import (
@@ -121,6 +123,12 @@ func canonList(xs []zygo.Sexp) string {
 }
 
 func execParse(toks []string) string {
+	if len(toks) > 0 && toks[0] == "h" {
+		return execParseHist(toks)
+	}
+	if len(toks) > 0 && toks[0] == "ei" {
+		return execEvalHist(toks)
+	}
 	if len(toks) == 2 && toks[0] == "ev" {
 		txt, ok := codesToString(toks[1])
 		if !ok {
